@@ -154,7 +154,13 @@ class BaseValidator(object):
         self.location.set_cell(0)
         field_map = _create_field_map(self.cid.field_names, row)
         for check_name in self.cid.check_names:
-            self.cid.check_map[check_name].check_row(field_map, self.location)
+            try:
+                self.cid.check_map[check_name].check_row(field_map, self.location)
+            except errors.CheckError as error:
+                if error.location is None:
+                    # A check of a plugin that does not say where; the row is where we are.
+                    raise errors.CheckError(error.message, self.location)
+                raise
 
     def _reset_checks(self):
         """
